@@ -494,8 +494,13 @@ func (w *world) replay(op, kind string, pre, post map[uint64]*pstate, ops []pool
 			s.S = new(big.Int).Add(s.S, dS)
 		case o.kind == "join":
 			// all-asset join: shares/S <= in_i/B_i for every asset, exactly
-			if dS.Sign() <= 0 {
-				return bail("join without new shares")
+			if dS.Sign() < 0 {
+				return bail("join lowered the share total")
+			}
+			if dS.Sign() == 0 {
+				// asking for fewer shares than 1e-18 of the total: the needed tokens are rounded up to
+				// whole units, the shares they buy are rounded down to none (the keeper logs and goes on)
+				run.Probe("all-asset-join-minted-nothing")
 			}
 			for _, d := range s.denoms {
 				in := bi(o.in.AmountOf(d))
